@@ -534,6 +534,7 @@ func (gen *generator) irFuncHeader(new *ir.Func, old ast.FuncHeader) error {
 		// LLParser::parseArgumentList in LLVM 14 (expectID), which an unnamed
 		// first parameter without an explicit ID does not advance.
 		var nextID, expectID int64
+		names := make(map[string]bool)
 		for i, oldParam := range oldParams {
 			// Type.
 			typ, err := gen.irType(oldParam.Typ())
@@ -550,6 +551,13 @@ func (gen *generator) irFuncHeader(new *ir.Func, old ast.FuncHeader) error {
 						return errors.Errorf("invalid local ID of parameter %d in function %q, expected %s, got %s", i, new.Ident(), enc.LocalID(nextID), enc.LocalID(ident.LocalID))
 					}
 					ident.LocalID = nextID
+				} else {
+					// The parameters of a declaration are not indexed as locals
+					// later on; a repeated name is reported here.
+					if names[ident.LocalName] {
+						return errors.Errorf("local identifier %q already present in the parameters of function %q", ident.Ident(), new.Ident())
+					}
+					names[ident.LocalName] = true
 				}
 				param.LocalIdent = ident
 			}
